@@ -256,6 +256,10 @@ func postC10(res *RunResult) {
 			if dc.entry != "chained" && dr.consumed > fl {
 				addViolation(res, c, out, fmt.Sprintf("read past the frame: %d > %d", dr.consumed, fl))
 			}
+			// the header-only entry points need the header and nothing else
+			if (dc.entry == "header" || dc.entry == "integhdr") && len(dc.data) > 0 && dr.consumed > int(dc.data[0]) {
+				addViolation(res, c, out, fmt.Sprintf("read past the header: %d > %d", dr.consumed, dc.data[0]))
+			}
 		}
 		if strings.Contains(dc.rspec, "f") {
 			continue
